@@ -100,8 +100,12 @@ Inductive ekind :=
 | KPulse | KDefWaveform | KDefGateMatrix.
 
 Inductive nkind :=
-| KDeclaration | KFence | KFrameDefinition | KHalt | KWait | KInclude | KJump | KLabel | KNop
-| KPragma | KReset | KSwapPhases | KDefGatePermutation | KDefGatePauliSum.
+| KDeclaration | KFence | KHalt | KWait | KInclude | KJump | KLabel | KNop
+| KPragma | KReset | KSwapPhases | KDefGatePermutation.
+
+(** definitions that carry expressions which [memory_accesses] does not look into: the attribute
+    values of a DEFFRAME and the term coefficients of a DEFGATE ... AS PAULI-SUM *)
+Inductive xkind := KFrameDefinition | KDefGatePauliSum.
 
 Inductive bkind := KDefCal | KDefCircuit | KDefMeasureCal.
 
@@ -124,6 +128,7 @@ Inductive instr :=
 | ILoad (d : mref) (src : N) (off : mref)
 | IStore (dst : N) (off : mref) (s : operand)
 | INoAccess (k : nkind)
+| IUnscanned (k : xkind) (es : list expr)
 | IDefGateSeq (gates : list (list expr))     (* DEFGATE ... AS SEQUENCE: parameters of each gate *)
 | IBlock (k : bkind) (params : list expr) (body : list instr).
 
@@ -203,6 +208,7 @@ Fixpoint accesses (sigs : sigmap) (i : instr) : option acc :=
   | ILoad d src off => Some ([src; mreg off], access d, [])
   | IStore dst off s => Some (accesses_with_operand off s, [dst], [])
   | INoAccess _ => Some acc_none
+  | IUnscanned _ _ => Some acc_none              (* "can't contain any memory references" *)
   | IDefGateSeq gates =>
       Some (fold_left acc_union (map (fun ps => read_all (exprs_refs ps)) gates) acc_none)
   | IBlock k params body =>
@@ -220,11 +226,27 @@ Fixpoint memN (n : N) (l : list N) : bool :=
 Definition subsetN (a b : list N) : bool := forallb (fun x => memN x b) a.
 Definition setN_eqb (a b : list N) : bool := subsetN a b && subsetN b a.
 
-(** Verified instance checker: compares a reported result with the access table.
-    0 = exactly the table; 2 = unsound (error/ok mismatch, or some consulted / assigned / captured
-    region is missing); 3 = sound but not exact (reports a region the instruction does not touch). *)
+(** What the property asks for: as [accesses], except that the expressions of the two unscanned
+    definition kinds count like the expressions of every other definition. *)
+Definition expected (sigs : sigmap) (i : instr) : option acc :=
+  match i with
+  | IUnscanned _ es => Some (read_all (exprs_refs es))
+  | _ => accesses sigs i
+  end.
+
+(** the (decidable) class on which [accesses] and [expected] differ — known finding
+    C27-unscanned-definition-exprs *)
+Definition unscanned_class (i : instr) : bool :=
+  match i with
+  | IUnscanned _ es => match exprs_refs es with [] => false | _ => true end
+  | _ => false
+  end.
+
+(** Verified instance checker: compares a reported result with what the property asks for.
+    0 = exactly; 2 = unsound (error/ok mismatch, or some consulted / assigned / captured region is
+    missing); 3 = sound but not exact (reports a region the instruction does not touch). *)
 Definition chk_access (sigs : sigmap) (i : instr) (obs : option acc) : N :=
-  match accesses sigs i, obs with
+  match expected sigs i, obs with
   | None, None => 0
   | Some a, Some o =>
       if subsetN (a_reads a) (a_reads o) && subsetN (a_writes a) (a_writes o)
@@ -236,9 +258,20 @@ Definition chk_access (sigs : sigmap) (i : instr) (obs : option acc) : N :=
   | _, _ => 2
   end%N.
 
+Definition acc_eqb (a b : acc) : bool :=
+  setN_eqb (a_reads a) (a_reads b) && setN_eqb (a_writes a) (a_writes b)
+  && setN_eqb (a_captures a) (a_captures b).
+
+Definition model_agrees (sigs : sigmap) (i : instr) (obs : option acc) : bool :=
+  match accesses sigs i, obs with
+  | None, None => true
+  | Some a, Some o => acc_eqb a o
+  | _, _ => false
+  end.
+
 (** A case also carries the references yielded by the real iterator for every expression of the
     instruction (in order), compared with the stack-machine model [memrefs_iter]; code 4 = the
-    iterator differs. *)
+    iterator differs; code 1 = the checker accepts but the model of the code says otherwise. *)
 Fixpoint listM_eqb (a b : list mref) : bool :=
   match a, b with
   | [], [] => true
@@ -257,7 +290,9 @@ Definition case := (sigmap * instr * option acc * list (expr * list mref))%type.
 Definition case_verdict (c : case) : N :=
   let '(sigs, i, obs, its) := c in
   let v := chk_access sigs i obs in
-  if negb (N.eqb v 0) then v else if iter_ok its then 0%N else 4%N.
+  if negb (N.eqb v 0) then v
+  else if negb (model_agrees sigs i obs) then 1%N
+  else if iter_ok its then 0%N else 4%N.
 
 Fixpoint failing_from (n : N) (cs : list case) : list (N * N) :=
   match cs with
